@@ -691,10 +691,8 @@ pub fn c03_case(fam: &str, idx: usize, seed: u64) -> Option<Case> {
             Some(Case::from(sc, &k, desc, false))
         }
         "stall" => {
-            // NOT part of the check (replay only): one entity's transport stops taking PDUs for good after k of
-            // them (its `request` never returns). A sender blocked like this in its data phase has no timer
-            // running and waits for ever; that is local back-pressure, not a behaviour of the peer or the link,
-            // and is recorded in DESIGN.md as an observation, not judged.
+            // back-pressure instead of loss: a transport stops taking PDUs for good after k of them (its `request`
+            // never returns); PDUs queue up behind it, and still every transaction has to end by its timers
             let mut rng = Rng::derive(seed, 307, idx as u64);
             let mut k = rand_knobs(&mut rng, false);
             let t = C03_TIMERS[rng.usize(C03_TIMERS.len())];
@@ -707,12 +705,14 @@ pub fn c03_case(fam: &str, idx: usize, seed: u64) -> Option<Case> {
             let cl = rng.below(5);
             let c = content(&mut rng, size, cl, 32, 1);
             let mut sc = two_party(&case, rng.next_u64(), &k, c);
-            let n0 = first_pass_len(size, 32) + 2;
-            let who = rng.usize(2);
-            let at = if who == 0 { rng.usize(n0 + 2) } else { rng.usize(4) };
-            sc.stall_after.push((who, at));
-            if rng.chance(1, 3) {
-                sc.stall_after.push((1 - who, if who == 0 { rng.usize(4) } else { rng.usize(n0 + 2) }));
+            // the receiver's transport at any point; the sender's only once its EOF has gone out (a sender blocked
+            // in its data phase has no timer running: see DESIGN.md, observations)
+            let n0 = first_pass_len(size, 32);
+            if rng.chance(2, 3) {
+                sc.stall_after.push((1, rng.usize(4)));
+            }
+            if sc.stall_after.is_empty() || rng.chance(1, 3) {
+                sc.stall_after.push((0, n0 + rng.usize(3)));
             }
             sc.paced = rng.bool();
             let desc = format!("{} size={} transports stall after {:?} PDUs", k.describe(), size, sc.stall_after);
@@ -939,7 +939,7 @@ pub fn run_c03(tier: &str, seed: u64, replay: Option<&str>) -> (Meta, Report) {
     let meta = Meta {
         property: "C03",
         level: "fault_enumeration",
-        rule: "blackout = link cut (e0->e1, e1->e0, or both) starting at EVERY emission index of the exchange x {ack, unack, unack+closure} x 4 NAK procedures x timer grid {(Ti,Ta,Tn,L)} x sizes {0, 40, 100} (complete); cancel = user cancel at either entity at a random index followed by a cut; rand = up to 12 random faults plus optional loss of every PDU of one kind; prompt = Prompt(NAK/keep-alive) requests of the sending user at random points, also while the receiver waits for the ACK of a Finished PDU that the link loses or delays; primseq = sequences of user primitives (cancel/suspend/resume/prompt in 8 orders) at either entity at a random point, with the link going dark at a random point; late = a fatal cause (one kind of PDU always lost, a cut, a user cancel, or none) with per-condition handlers, then copies of earlier PDUs of any kind delivered at chosen delays after the Fault/Finished/Abandon indication of either entity, plus long-spaced duplicates of every PDU of one kind; plus the C02 single-fault placements. Every run ends with a probe transfer and Report over a healed link. distinct_nontrivial = distinct (config, size, event-order) signatures among runs where a fault fired and at least one task was judged.".into(),
+        rule: "blackout = link cut (e0->e1, e1->e0, or both) starting at EVERY emission index of the exchange x {ack, unack, unack+closure} x 4 NAK procedures x timer grid {(Ti,Ta,Tn,L)} x sizes {0, 40, 100} (complete); cancel = user cancel at either entity at a random index followed by a cut; rand = up to 12 random faults plus optional loss of every PDU of one kind; prompt = Prompt(NAK/keep-alive) requests of the sending user at random points, also while the receiver waits for the ACK of a Finished PDU that the link loses or delays; primseq = sequences of user primitives (cancel/suspend/resume/prompt in 8 orders) at either entity at a random point, with the link going dark at a random point; late = a fatal cause (one kind of PDU always lost, a cut, a user cancel, or none) with per-condition handlers, then copies of earlier PDUs of any kind delivered at chosen delays after the Fault/Finished/Abandon indication of either entity, plus long-spaced duplicates of every PDU of one kind; stall = the receiver's transport (at any point) or the sender's (once its EOF has gone out) stops taking PDUs for good: back-pressure instead of loss; plus the C02 single-fault placements. Every run ends with a probe transfer and Report over a healed link. distinct_nontrivial = distinct (config, size, event-order) signatures among runs where a fault fired and at least one task was judged.".into(),
         exhaustive: false,
         assumptions: vec!["timeouts >= 1 s".into(), "bound B = 2L(Ti+Ta+Tn)+d+4D+10 s after the last PDU/primitive delivered to the task; observation window 3B".into(), "task end is observed through the cfg-guarded TaskGuard drop hook (H3), spin through its tick counter".into()],
         require: vec![("c03_tasks_ended_in_bound".into(), 1000), ("c03_probes".into(), 500)],
@@ -966,6 +966,8 @@ pub fn run_c03(tier: &str, seed: u64, replay: Option<&str>) -> (Meta, Report) {
     rep.add("cases:primseq", nr as u64);
     rep.merge(run_cases(nr, "c03-late", move |i| c03_case("late", i, seed), judge_c03));
     rep.add("cases:late", nr as u64);
+    rep.merge(run_cases(nr / 2, "c03-stall", move |i| c03_case("stall", i, seed), judge_c03));
+    rep.add("cases:stall", (nr / 2) as u64);
 
     let n1 = c02_sys1_space().len();
     let st2 = if thorough { 1 } else { 5 };
